@@ -48,7 +48,7 @@ pub fn jobs(seed: u64, tier: &str) -> Vec<Job> {
     // long homogeneous runs (one colour / one column / one position): thresholds and caches that only show after dozens of
     // equal objects (mono streaks, repeated patterns, saturating bonuses)
     for (mi, mode) in ["osu", "taiko", "catch", "mania"].iter().enumerate() {
-        for (ri, run) in [33usize, 34, 40, 70, 130].iter().enumerate() {
+        for (ri, run) in [33usize, 34, 40, 70, 130, 300, 600].iter().enumerate() {
             let gap = [100u32, 250][(ri + mi) % 2];
             let snd = [0u32, 8][ri % 2];
             let mut s = format!("osu file format v14\n\n[General]\nMode: {mi}\n\n[Difficulty]\nHPDrainRate:5\nCircleSize:4\nOverallDifficulty:7\nApproachRate:9\nSliderMultiplier:1.4\nSliderTickRate:1\n\n[TimingPoints]\n0,400,4,2,0,100,1,0\n\n[HitObjects]\n");
@@ -63,6 +63,25 @@ pub fn jobs(seed: u64, tier: &str) -> Vec<Job> {
             }
             if let Ok(map) = Beatmap::from_bytes(s.as_bytes()) {
                 out.push(Job { label: format!("run of {run} equal {mode} objects every {gap} ms"), map, cfg: all[(ri + mi) % all.len()].clone() });
+            }
+        }
+    }
+    // very long breaks: strains decay to exactly zero and hundreds / thousands of empty sections follow before the map goes on
+    for (mi, mode) in ["osu", "taiko", "catch", "mania"].iter().enumerate() {
+        for (bi, brk) in [120_000u32, 900_000].iter().enumerate() {
+            let mut s = format!("osu file format v14\n\n[General]\nMode: {mi}\n\n[Difficulty]\nHPDrainRate:5\nCircleSize:4\nOverallDifficulty:7\nApproachRate:9\nSliderMultiplier:1.4\nSliderTickRate:1\n\n[TimingPoints]\n0,400,4,2,0,100,1,0\n\n[HitObjects]\n");
+            let mut t = 1000u32;
+            for k in 0..40u32 {
+                s += &format!("{},{},{t},1,{}\n", 64 + 128 * ((k * 3) % 4), 60 + 70 * (k % 4), [0u32, 8, 0, 2][k as usize % 4]);
+                t += [120u32, 200, 90, 300][k as usize % 4];
+            }
+            t += brk;
+            for k in 0..8u32 {
+                s += &format!("{},{},{t},1,{}\n", 64 + 128 * (k % 4), 100 + 50 * (k % 3), [8u32, 0][k as usize % 2]);
+                t += 150;
+            }
+            if let Ok(map) = Beatmap::from_bytes(s.as_bytes()) {
+                out.push(Job { label: format!("{mode} map with a break of {} s", brk / 1000), map, cfg: all[(bi + mi) % all.len()].clone() });
             }
         }
     }
